@@ -938,7 +938,9 @@ def search_nodes(ctx: Ctx) -> SearchResult:
 			root1 = diskproj.nodes_of(ep1)._Nodes__entries.by(ep1.full_path)
 			root2 = diskproj.nodes_of(ep2)._Nodes__entries.by(ep2.full_path)
 		except Exception as e:  # noqa: BLE001 - the fresh parse succeeded, so the stored form must load
-			res.findings.append(Finding(key=f'restore-raises:{exc_enum(e)}', what=f'{label}: loading the cached tree raises {exc_enum(e)}', replay={'module': label}))
+			with open(os.path.join(proj.root, mp.replace('.', os.sep) + '.py'), encoding='utf-8', newline='') as fh:
+				text = fh.read()
+			res.findings.append(Finding(key=f'restore-raises:{exc_enum(e)}', what=f'{label}: loading the cached tree raises {exc_enum(e)} ({str(e)[:80]})', replay={'module': label, 'source': text[:20000], 'cache_files': [(os.path.basename(f), os.path.getsize(f)) for f in proj.tree_cache_files() if os.path.basename(f).startswith(mp.split('.')[-1] + '-')]}))
 			continue
 		if diskproj.is_restored(root1) or not diskproj.is_restored(root2):
 			res.histogram['cache-not-exercised'] = res.histogram.get('cache-not-exercised', 0) + 1
@@ -963,6 +965,7 @@ def search_nodes(ctx: Ctx) -> SearchResult:
 		if len(res.samples) < 2:
 			res.samples.append({'module': label, 'nodes': len(f1), 'cache_files': len(proj.tree_cache_files())})
 	res.distinct = len(seen)
+	res.note = 'cold parse → stored tree → warm load(s) by fresh Apps on the same cache directory; modules: generated (CRLF, no final line feed), statement-free, real snapshots, and boundary lengths (stored form exactly 1024 bytes / a whole number of 1024-, 4096-, 8192-, 512-byte blocks, reached by padding a trailing comment)'
 	if not exercised and not res.findings:
 		raise common.InfraError('no module was restored from the on-disk cache: the search did not exercise the cache path')
 	return res
